@@ -632,7 +632,9 @@ def frameLoop (fuel endFrame : Nat) : Nat → St σ → Nat → Array UInt8 → 
     else if outBytes ≠ 0 then .ok ⟨.decrunch, acc.toList, { st with error := .decrunch }⟩
     else .ok ⟨.ok, acc.toList, st⟩
   | n + 1, st, outBytes, acc =>
-    if st.frame < endFrame then
+    -- `if (lzx->length && lzx->offset >= lzx->length) break;` (since the D24 repair): the stream's whole length has
+    -- been decoded, there is no further frame
+    if st.frame < endFrame ∧ ¬ (st.length ≠ 0 ∧ st.offset ≥ st.length) then
       match (frameBody S fuel outBytes).run.run st with
       | (.error (.fault f), _) => .error f
       | (.error (.sys e), st) => .ok ⟨e, acc.toList, st⟩
